@@ -310,6 +310,12 @@ func (p *PreState) Build() (*World, error) {
 	if err != nil {
 		return nil, err
 	}
+	if len(p.WrappedQi)+len(p.QiDeposits) > 0 {
+		// An account without balance, nonce and code is deleted by Finalise(true) together with
+		// its freshly written storage (Size is only counted when the storage trie is updated), so
+		// the lockup contract account is made non-empty here. Stated as an assumption of the checks.
+		sdb.SetNonce(lockupIn, 1)
+	}
 	for _, w := range p.WrappedQi {
 		sdb.SetState(lockupIn, WrappedQiSlot(w.Owner), common.BigToHash(w.Balance))
 	}
